@@ -7,6 +7,8 @@ import FurikoModel.Proofs.JobCtlInvCreate
 import FurikoModel.Proofs.JobCtlInvExamples
 import FurikoModel.Proofs.JobCtlInvStabThm
 import FurikoModel.Proofs.JobCtlInvOneLive
+import FurikoModel.Proofs.JobCtlInvC12Calls
+import FurikoModel.Props.C08Plan
 
 namespace Furiko.Props.C08Hist
 open Furiko Furiko.JobCtl Furiko.ParallelLemmas
@@ -145,5 +147,53 @@ example : Reach anyAction Ex.job2 Ex.u3 ∧
 example : "job-h-0" ∈ podNames (step (step Ex.s0 .deliverJob) .work).pods ∧
     "job-h-0" ∉ podNames (step Ex.s0 .deliverJob).pods ∧ NoCollision (Ex.job.job.indexes Ex.s0.d) :=
   ⟨by decide +kernel, by decide +kernel, by decide +kernel⟩
+
+/-! ### the finish time recorded for an attempt whose pod does not tell one (F30 repaired)
+
+The retry delay is counted from the RECORDED finish time (`C08.earliest_respects_delay`,
+`C08Plan.create_only_missing`).  For a pod that tells when it finished that is the pod's own time; for
+one that does not (evicted, node lost, …) it is, since the repair of F30, the clock of the pass that FIRST
+read it finished: `recorded_finish_not_before` — that clock is not before the clock of ANY earlier state
+of the history, in particular the state in which the kubelet ended the attempt — and
+`recorded_finish_frozen_by_pass` — the passes that read the pod again, at later clocks, keep the value
+(together with `C11Hist.timestamps_never_cleared`: it is never cleared either). -/
+
+/-- `recorded_finish_not_before` (ALL actions allowed): whatever earlier state `s0` of the history, the
+finish time a pass running in `s` reads for a finished pod that does not tell when it finished is the
+clock of `s`, which is not before the clock of `s0`.  With `s0` the state in which the kubelet wrote the
+terminal phase: the finish time recorded by the first observing pass is not before the true end of the
+attempt, and `retryDelaySeconds` counted from it has really elapsed since that end. -/
+theorem recorded_finish_not_before {ok : Sys → Action → Prop} {j0 : JobObj} {s0 s : Sys} (hs : Steps ok j0 s0 s)
+    {p : PodObj} {t : Task} (h : podTask s.clock p = some t) (hfin : p.pod.isFinished = true)
+    (hnr : p.pod.hasFinishTimestamp = false)
+    (hst : p.pod.startTime.isSome = true ∨ p.pod.creationTimestamp.isSome = true) :
+    t.ref.finishTimestamp = some s.clock ∧ s0.clock ≤ s.clock :=
+  ⟨Furiko.Props.C08Plan.finish_recorded_is_observation h hfin hnr hst, steps_clock_le hs⟩
+
+/-- `recorded_finish_frozen_by_pass`: under the invariants of a pass inside the stability envelope
+(`sync_res`: the cached Job carries no kill timestamp and no admission error; `RS` on every recorded ref)
+every ref of the cached status that is finished is still recorded by the Job value the pass computes,
+under its name and WITH ITS FINISH TIME — whatever the clock of the pass, i.e. whatever finish time a pod
+that does not tell one is read with this time. -/
+theorem recorded_finish_frozen_by_pass {j0 : JobObj} (sp : Sys) (jo : JobObj) (ctx : PassCtx j0 sp) (hwf : WF2 j0 sp.d)
+    (hjo : VerOK j0 jo) (hg : Good j0 sp.d jo.job) (hrs : ∀ r ∈ jo.job.status.tasks, RS r)
+    (hfin : ∀ r ∈ jo.job.status.tasks, r.finishTimestamp.isSome = true → PodFinIn sp.pods r.name)
+    (hcan : canCreateTask jo.job = true) (hcoh : Coh sp.d jo.job) (hadm : jo.job.admissionError = false)
+    (htm : jo.job.template.isSome = true) :
+    ∀ ex ∈ jo.job.status.tasks, ex.finishTimestamp.isSome = true →
+      ∃ r ∈ (sync sp jo).2.1.status.tasks, r.name = ex.name ∧ r.finishTimestamp = ex.finishTimestamp := by
+  intro ex hex hf
+  obtain ⟨r, hr, h1, h2, _⟩ := (sync_res sp jo ctx hwf hjo hg hrs hfin hcan hcoh hadm htm).1.froz ex hex hf
+  exact ⟨r, hr, h1, h2⟩
+
+/-- the regression history of `C08Side.evicted_retry_respects_delay`, pass level: the evicted pod of the
+scenario (phase Failed, start time 5 s, no container status) read at 3605 s and again at 3607 s -/
+example :
+    let p : PodObj := { pod := { name := "job-h-0", creationTimestamp := some 0, phase := .failed,
+                                 startTime := some (secs 5), retryIndex := some 0 } }
+    ((podTask (secs 3605) p).map (·.ref.finishTimestamp) = some (some (secs 3605))) ∧
+    (((podTask (secs 3605) p).bind (fun t1 => (podTask (secs 3607) p).map (fun t2 =>
+        (getTaskRef (some (getTaskRef none t1)) t2).finishTimestamp))) = some (some (secs 3605))) := by
+  decide
 
 end Furiko.Props.C08Hist
